@@ -134,6 +134,22 @@ func (r setRules) Less(v1, v2 interface{}) bool {
 	}
 }
 
+// numberHashString returns the string used to represent a number in set hash
+// bytes. Any two numbers that rawNumberEqual considers equal must produce the
+// same string here, so this follows the same rules: whole numbers are
+// represented by their value (with negative zero normalized to zero) and all
+// other numbers by the same shortest decimal text that equality compares.
+func numberHashString(f *big.Float) string {
+	switch {
+	case f.Sign() == 0:
+		return "0"
+	case f.IsInf() || f.IsInt():
+		return f.String()
+	default:
+		return f.Text('f', -1)
+	}
+}
+
 func makeSetHashBytes(val Value) ([]byte, ValueMarks) {
 	var buf bytes.Buffer
 	marks := make(ValueMarks)
@@ -187,10 +203,10 @@ func appendSetHashBytes(val Value, buf *bytes.Buffer, marks ValueMarks) {
 		// here just so that we can get far enough along to fix it up for
 		// everything else in this package.
 		if bf, ok := val.v.(big.Float); ok {
-			buf.WriteString(bf.String())
+			buf.WriteString(numberHashString(&bf))
 			return
 		}
-		buf.WriteString(val.v.(*big.Float).String())
+		buf.WriteString(numberHashString(val.v.(*big.Float)))
 		return
 	case Bool:
 		if val.v.(bool) {
